@@ -127,3 +127,84 @@ func TestC12_SameMapOtherValues(t *testing.T) {
 		}
 	})
 }
+
+// TestC12_ReadsAfterArrayFunctions: "slices by position" - also after the
+// template has taken parts of the slice and extended them: what slice(),
+// append(), prepend() and reverse() return are values of their own.
+func TestC12_ReadsAfterArrayFunctions(t *testing.T) {
+	c := harness.New(t, "C12", "reads-after-array-functions",
+		"a data slice of 2..6 integers or strings (at top level, in a struct field behind a pointer, as a map value) from which the template takes slice(0, k) / slice(j, k) / slice(k), appends or prepends one or two values to the part (directly and through a variable), reverses it - for every k - and then reads every position of the data slice and its length: they are the data's. Exhaustive. Non-trivial: all. Distinct by construction.")
+	defer c.Finish()
+	idx := 0
+	for n := 2; n <= 6; n++ {
+		for _, kind := range []string{"ints", "strings"} {
+			for _, where := range []string{"top", "field", "mapvalue"} {
+				for k := 0; k <= n; k++ {
+					for form := 0; form < 5; form++ {
+						idx++
+						if !harness.Mine(idx) {
+							continue
+						}
+						items := make([]*spec.Value, n)
+						want := ""
+						for i := range items {
+							if kind == "ints" {
+								items[i] = spec.IntOf(spec.TInt, int64(10*(i+1)))
+								want += fmt.Sprintf("[%d]", 10*(i+1))
+							} else {
+								items[i] = spec.String(fmt.Sprintf("s%d", i))
+								want += fmt.Sprintf("[s%d]", i)
+							}
+						}
+						el := spec.T(spec.TInt)
+						x := "99"
+						if kind == "strings" {
+							el, x = spec.T(spec.TString), "'x'"
+						}
+						sl := spec.Slice(el, items...)
+						data, p := (&spec.Data{}).Add("d", sl), "d"
+						switch where {
+						case "field":
+							data, p = (&spec.Data{}).Add("u", spec.Ptr(spec.Struct([]string{"Tags"}, []*spec.Value{sl}))), "u.tags"
+						case "mapvalue":
+							data, p = (&spec.Data{}).Add("m", spec.Map(spec.T(spec.TAny), []string{"list"}, []*spec.Value{spec.Any(sl)})), "m.list"
+						}
+						var use string
+						switch form {
+						case 0:
+							use = fmt.Sprintf("{{ %s.slice(0, %d).append(%s).len() }}", p, k, x)
+						case 1:
+							use = fmt.Sprintf("{{ h = %s.slice(0, %d); more = h.append(%s, %s); more.len() }}", p, k, x, x)
+						case 2:
+							use = fmt.Sprintf("{{ %s.slice(%d).prepend(%s).append(%s).len() }}", p, k, x, x)
+						case 3:
+							use = fmt.Sprintf("{{ %s.slice(%d, %d).append(%s).reverse().len() }}", p, k/2, k, x)
+						default:
+							use = fmt.Sprintf("{{ a = %s.slice(0, %d).append(%s); b = %s.slice(0, %d).append(%s, %s); a.len() + b.len() }}", p, k, x, p, k, x, x)
+						}
+						src := use + "|"
+						for i := 0; i < n; i++ {
+							src += fmt.Sprintf("[{{ %s[%d] }}]", p, i)
+						}
+						src += fmt.Sprintf("|{{ %s.len() }}", p)
+						c.CaseEnum(true, "where:"+where)
+						if idx%61 == 0 {
+							c.Sample(src)
+						}
+						r := evalString(c, "text", src, src, data.GoMap())
+						parts := strings.SplitN(r.Out, "|", 2)
+						switch {
+						case r.Panic != nil:
+							c.Fail(t, "panic", src, want, r, "panic: "+r.Panic.Value)
+						case r.IsErr():
+							c.Fail(t, "mismatch", src, want, r, "unexpected error: "+r.Err)
+						case len(parts) != 2 || parts[1] != want+fmt.Sprintf("|%d", n):
+							c.Fail(t, "mismatch", src, want+fmt.Sprintf("|%d", n), r, fmt.Sprintf("after %s the data slice reads %q, the data is %q", use, r.Out, want))
+						}
+					}
+				}
+			}
+		}
+	}
+	c.ExhaustivePart("lengths 2..6 x 2 element kinds x 3 places x every cut x 5 ways to extend the part")
+}
